@@ -129,12 +129,19 @@ def run(ck):
     # (include/import sets use template modules: `import` in async mode goes through
     #  make_module_async; they are part of the corpus in the thorough tier and via `mod` below)
     cases += jgen.module_cases(ck.seed * 31 + 77, 60 if quick else 1500, start_id=len(cases) + 1)
+    # lazy filters: in async mode they are async generators read by the async variants of list / join / sum / first / for
+    lz = jgen.lazy_cases(ck.seed * 31 + 78, 120 if quick else 2500, start_id=len(cases) + 1)
+    for c in lz:
+        c.pop("emit_values", None)
+    cases += lz
     for bi, batch in enumerate(core.chunks(cases, 2500)):
         obs, r = jrun.spec_results("C09", batch, name=f"b{bi}", timeout=3000)
         ck.add_tlc(r, f"Jinja.tla batch {bi} ({len(batch)} programs)")
         jrun.conformance(ck, batch, obs, variants(ck.tier), fingerprint)
     # async iterables as data (only meaningful in async environments)
     ait = jgen.aiter_cases(ck.seed + 909, 150 if quick else 3000, start_id=len(cases) + 1)
+    lza = jgen.lazy_cases(ck.seed * 31 + 79, 80 if quick else 1500, start_id=len(cases) + len(ait) + 1, aiter=True)
+    ait += lza
     obs, r = jrun.spec_results("C09", ait, name="aiter", timeout=3000)
     ck.add_tlc(r, f"Jinja.tla async-iterable programs ({len(ait)})")
     av = [{"label": f"{s_}/{h}/plain-lists", "env_cls": c_, "how": h, "opts": o_}
